@@ -222,6 +222,16 @@ def localize(desc, v, env):
 
 
 def judge(desc, env):
+    if desc.get("engine") == "cli":  # a cli-repeat descriptor being replayed / minimised
+        keep = ("out/j.json", "out/j.xml")
+        r1, r2 = env.run(desc, keep_files=keep), env.run(desc, keep_files=keep, alt=True)
+        if r1["status"] in ("timeout", "harness-error"):
+            return r1["status"], r1
+        a = (r1["status"], (r1["end"] or {}).get("exit"), runner.stream_of(r1)[1], r1["kept"], sorted((k, v["h"], v["mode"]) for k, v in r1["after"].items()))
+        b = (r2["status"], (r2["end"] or {}).get("exit"), runner.stream_of(r2)[1], r2["kept"], sorted((k, v["h"], v["mode"]) for k, v in r2["after"].items()))
+        V = [] if a == b else [{"class": "hash-seed-dependence", "target": None, "observed": {"reader": None, "writers": None}}]
+        r1["c06_stats"] = {"compared": 0, "excused": 0, "analyses": 0, "rules_with_violations_alone": 0, "writers": []}
+        return V, r1
     res = env.run(desc)
     if res["status"] in ("timeout", "harness-error"):
         return res["status"], res
@@ -312,6 +322,7 @@ def plan(tier, seed):
     jobs += [{"prop": PROP, "mode": "repeat", "i": i, "nsched": 2, "seed": H(seed, tier, PROP, "repeat", i)} for i in range(nr)]
     nb = (len(breadth_files(seed)) + 11) // 12  # every un-fixed rule input, in both tiers
     jobs += [{"prop": PROP, "mode": "breadth", "i": i, "per": 12, "nsched": 0, "seed": seed} for i in range(nb)]
+    jobs += [{"prop": PROP, "mode": "cli-repeat", "i": i, "seed": H(seed, tier, PROP, "cli-repeat", i)} for i in range(30 if tier == "quick" else 1500)]
     jobs += common.regress_jobs(PROP, 1)
     return jobs
 
@@ -372,9 +383,42 @@ def run_breadth(job, env):
     return out.done()
 
 
+def run_cli_repeat(job, env):
+    """'Reports the same violations every time it is repeated', at CLI level: the same command in
+    two pristine processes of different hash-seed classes (check, and separately --fix)."""
+    from vsim.props import c15
+
+    out = common.JobResult(job)
+    d = c15.gen_batch(job["seed"])
+    d["property"] = PROP
+    d["policy"] = "sticky"
+    d["hashseed_class"] = job.get("class", 0)
+    keep = ("out/j.json", "out/j.xml")
+    r1 = env.run(d, keep_files=keep)
+    r2 = env.run(d, keep_files=keep, alt=True)
+    for r in (r1, r2):
+        if r["status"] in ("timeout", "harness-error"):
+            out.account(d, r, r["status"], None, nontrivial=False)
+            return out.done()
+    V = []
+    a = (r1["status"], (r1["end"] or {}).get("exit"), (r1["end"] or {}).get("exc"), runner.stream_of(r1)[1], r1["kept"], sorted((k, v["h"], v["mode"]) for k, v in r1["after"].items()))
+    b = (r2["status"], (r2["end"] or {}).get("exit"), (r2["end"] or {}).get("exc"), runner.stream_of(r2)[1], r2["kept"], sorted((k, v["h"], v["mode"]) for k, v in r2["after"].items()))
+    if a != b:
+        what = [n for n, x, y in zip(("status", "exit", "exception", "report", "json/junit", "files"), a, b) if x != y]
+        V.append({"class": "hash-seed-dependence", "target": None, "observed": {"reader": None, "writers": None, "differs": what, "hashseeds": [r1.get("hashseed"), r2.get("hashseed")]}})
+    out.account(d, r1, V, ("cli-repeat", common.stable(d["argv"]), tuple(sorted(f["digest"] for f in d["meta"]["files"]))), nontrivial=r1["status"] == "exit")
+    out.d["evals"] += 1
+    out.probe("cli_run_repeated_in_other_hashseed_class")
+    if V:
+        out.violation(d, V)
+    return out.done()
+
+
 def run_job(job, env):
     if job["mode"] == "breadth":
         return run_breadth(job, env)
+    if job["mode"] == "cli-repeat":
+        return run_cli_repeat(job, env)
     out = common.JobResult(job)
     if job["mode"] == "regress":
         d = common.regress_desc(job)
@@ -450,6 +494,8 @@ def minimize(v, env):
     """C06 descriptors shrink along their own dimensions: schedules, then the rule sets inside the
     failing schedule (the localisation run has already named the writers), then file lines."""
     desc0 = v["desc"]
+    if desc0.get("engine") == "cli":
+        return dict(v, shrink={"note": "cli-repeat descriptor: reported as found"})
     want = v["violations"][0]
     cls, reader = want["class"], want["observed"].get("reader")
     runs = [0]
